@@ -32,6 +32,7 @@ static std::vector<uint64_t> run_routine(const std::vector<std::string> &t)
         c.dst = t[8];
         c.buf = t[9];
         int nth = atoi(t[10].c_str());
+        c.xv = t.size() > 11 ? atoi(t[11].c_str()) : 0;
         NTT_Goldilocks obj(1ULL << S, nth);
         Result r = run_call(obj, c);
         out = r.out;
@@ -107,7 +108,13 @@ static void do_case(vh::Out &o, long long ci, const std::vector<std::string> &t)
     shim::deliver_cap = 1;
     shim::order_spec.clear();
     shim::icv_threads = 0;
-    std::vector<uint64_t> ref = run_routine(routine);
+    // the reference is the single-thread execution: thread-count argument 1 AND a team of one
+    std::vector<std::string> routine1 = routine;
+    if (routine1[0] == "ntt")
+        routine1[10] = "1";
+    else if (routine1[0] == "mt")
+        routine1[6] = "1";
+    std::vector<uint64_t> ref = run_routine(routine1);
     // run under the case's team cap and member order, recording member write sets
     shim::deliver_cap = cap > 0 ? cap : 48; // cap 0 = "as requested", up to a runtime thread limit of 48
     shim::order_spec = order;
